@@ -331,7 +331,8 @@ def main(tier):
     rep.functions = src_hash(mb.LatticeColumn.prune, mb.BaseMatcher.match, mb.BaseMatcher._create_start_nodes,
                              mb.BaseMatcher._match_states, mb.BaseMatcher._match_non_emitting_states,
                              mb.BaseMatcher.increase_max_lattice_width, mb.BaseMatching._update_inner)
-    budget = 60 if tier == 'quick' else 900
+    from symx.common import fit_budget
+    budget = fit_budget(len(k_instances(tier)) * 4 + len(r_instances(tier)), tier, 60, 60)
     insts = [i + (4 * budget,) for i in k_instances(tier)] + [i + (budget,) for i in r_instances(tier)]
     res = run_instances(run_instance, insts)
     rep.bounds = dict(prune="column of n<=%d entries, symbolic scores, symbolic stop flags, delayed in {0,1,2}, expand_upto in {0,1}, every W in 1..n, prune_thr None or symbolic" % (4 if tier == 'quick' else 5),
